@@ -154,10 +154,15 @@ CLAIMED = {
         "(clean_return), hence calls chain (next_call), at return R*target <= sum of island ages (ages_nonblocking), migration partners are symmetric (par_partner_symmetric). "
         "Tie: TRACE VALIDATION -- the real ParallelArchipelago runs on a deterministic thread-based stand-in for mpi4py under random/adversarial/exhaustive schedules and every logged "
         "communication event is replayed through the model's step function; oracle on the real runs (deadlock detector, mailboxes, ages, cross-rank agreement, NaN-aware best, migration "
-        "conservation). Termination under fair schedules is observed, not proved.",
-   note=COMMON_NOTE + "mpi4py is not installed: the MPI runtime is my stand-in (buffered, non-overtaking, instantly visible messages, collectives as rank-ordered folds). Liveness is validated only. "
-        "Known findings F10 (per-call mean age on later calls) and F16 (zero-generation helper) in known_findings.json. Blocking mode is oracle-checked (each island +n).",
-   technique="Lean 4 proof (inductive invariant of the protocol for all R and all interleavings) + trace validation of the implementation on an MPI stand-in",
+        "conservation). LIVENESS (Props/C12Live.lean): for every run, rank 0's loop iterations are bounded by R*target (rank0_evolves_bounded_call), its protocol operations by "
+        "Phi(s0) + 2 * (helper age sends) (rank0_steps_bounded: the only way not to return is helpers out-running the drain loop), a notified helper needs at most 5 operations to reach the "
+        "barrier; every weakly fair execution that satisfies a speed bound (helper sends at most q per p rank-0 operations while rank 0 drains, 2q < p) reaches a final state with clean "
+        "mailboxes and the age bound (terminates_fair, terminates_fair_call); without the speed bound there is a fair execution that never returns (livelock_exists, "
+        "termination_needs_speed_assumption).",
+   note=COMMON_NOTE + "mpi4py is not installed: the MPI runtime is my stand-in (buffered, non-overtaking, instantly visible messages, collectives as rank-ordered folds). That the "
+        "harness's schedulers satisfy the speed bound is argued informally (round robin with slices of at least c points: p = c + 2, q = R - 1). Known finding F10 (per-call mean age on later "
+        "calls) in known_findings.json; F16 repaired. Blocking mode is oracle-checked (each island +n).",
+   technique="Lean 4 proof (inductive invariant for all R and all interleavings; potential functions and a variant argument over infinite fair executions for liveness) + trace validation of the implementation on an MPI stand-in",
    design="5/C12"),
  "C04": dict(
    text="Lean theorems over an executable port of AGraphGenerator / the five AGraphMutation kinds / AGraphCrossover as pure functions of (configuration, parent, draws), for ALL draw lists: every "
